@@ -10,6 +10,7 @@ package transport
 // over the ground truth of how the identity was built.
 
 import (
+	"bytes"
 	"fmt"
 	"testing"
 	"time"
@@ -24,12 +25,13 @@ import (
 
 // identity of the counterpart (the party being judged)
 type c01Ident struct {
-	Chain    int  `json:"chain"`    // 0 trusted chain, 1 chain under an untrusted root, 2 self-signed leaf, 3 trusted leaf but unrelated intermediate presented, 4 trusted leaf, no intermediate presented
+	Chain    int  `json:"chain"`    // 0 trusted chain, 1 chain under an untrusted root, 2 self-signed leaf, 3 trusted leaf but unrelated intermediate presented, 4 trusted leaf, no intermediate presented, 5 leaf properly issued by a forged intermediate that names the trusted root as its parent but is not signed by it
 	Time     int  `json:"time"`     // 0 valid, 1 expired, 2 not yet valid
 	TypeLeaf bool `json:"typeLeaf"` // false: an intermediate-typed certificate is presented as the leaf
 	Name     int  `json:"name"`     // 0 the expected label (raw type), 1 another label, 2 same label but DNS type
 	HoldsKey bool `json:"holdsKey"` // false: presents a certificate for a key it does not hold (impostor)
 	InSet    bool `json:"inSet"`    // the certified key is in the judge's authorized-key set
+	Removed  bool `json:"removed"`  // the certified key WAS added to the judge's authorized-key set and then removed again
 }
 
 // verification policy of the judging party
@@ -70,6 +72,30 @@ func c01OtherWorld() *vWorld {
 	return c01Other
 }
 
+var c01Forged *certs.Certificate
+
+// c01ForgedInter: an intermediate issued by an impostor's own root key whose Parent field was overwritten
+// with the fingerprint of the TRUSTED root (so the signature does not verify under the trusted root's key).
+func c01ForgedInter() *certs.Certificate {
+	if c01Forged != nil {
+		return c01Forged
+	}
+	w := vGetWorld()
+	fakeRoot := vSigningCert("forger-root", nil)
+	k := keys.GenerateNewSigningKeyPair()
+	inter, err := certs.IssueIntermediate(fakeRoot, &certs.Identity{PublicKey: k.Public, Names: []certs.Name{certs.RawStringName("forged-intermediate")}})
+	vMust(err)
+	inter.Parent = w.Root.Fingerprint
+	raw, err := inter.Marshal()
+	vMust(err)
+	re := &certs.Certificate{}
+	_, err = re.ReadFrom(bytes.NewReader(raw))
+	vMust(err)
+	re.ProvideKey((*[32]byte)(&k.Private))
+	c01Forged = re
+	return re
+}
+
 func c01Build(id c01Ident) c01Built {
 	w := vGetWorld()
 	certKP := keys.GenerateNewX25519KeyPair()
@@ -103,6 +129,9 @@ func c01Build(id c01Ident) c01Built {
 	if id.Chain == 1 {
 		parent = c01OtherWorld().Inter
 	}
+	if id.Chain == 5 {
+		parent = c01ForgedInter()
+	}
 	switch {
 	case id.Chain == 2:
 		// self-signed leaf (always "valid now": SelfSignLeaf has no validity knobs) unless a non-leaf type is wanted
@@ -125,6 +154,8 @@ func c01Build(id c01Ident) c01Built {
 		b.inter = c01OtherWorld().Inter
 	case 3:
 		b.inter = c01OtherWorld().Inter
+	case 5:
+		b.inter = c01ForgedInter()
 	}
 	b.certKey = certKP.Public
 	b.key = certKP
@@ -227,6 +258,10 @@ func c01Scenario(c c01Case, v *vlib.Verdict) (r c01Result) {
 	vc := c01Verify(c.Policy, b)
 	if vc != nil && c.Ident.InSet {
 		vc.AuthKeys.AddKey(b.certKey)
+	}
+	if vc != nil && c.Ident.Removed && !c.Ident.InSet {
+		vc.AuthKeys.AddKey(b.certKey)
+		vc.AuthKeys.RemoveKey(b.certKey)
 	}
 	scfg := w.ServerConfig(c.Hidden)
 	ccfg := w.ClientConfig(c.Hidden, false)
@@ -358,7 +393,7 @@ func c01Idents() []c01Ident {
 	}
 	add(func(i *c01Ident) {})
 	add(func(i *c01Ident) { i.HoldsKey = false })
-	for ch := 1; ch <= 4; ch++ {
+	for ch := 1; ch <= 5; ch++ {
 		ch := ch
 		add(func(i *c01Ident) { i.Chain = ch })
 	}
@@ -368,6 +403,7 @@ func c01Idents() []c01Ident {
 	add(func(i *c01Ident) { i.Name = 1 })
 	add(func(i *c01Ident) { i.Name = 2 })
 	add(func(i *c01Ident) { i.Chain = 2; i.HoldsKey = false })
+	out = append(out, c01Ident{TypeLeaf: true, HoldsKey: true, Chain: 2, Removed: true}, c01Ident{TypeLeaf: true, HoldsKey: true, Chain: 1, Removed: true})
 	add(func(i *c01Ident) { i.Chain = 1; i.Time = 1 })
 	return out
 }
@@ -403,12 +439,13 @@ func TestVerifC01Random(t *testing.T) {
 	vlib.Drive(t, vlib.Spec[c01Case]{ID: "C01", Quick: 3000, Run: c01Run(t), Gen: func(t *rapid.T) c01Case {
 		c := c01Case{Hidden: rapid.Bool().Draw(t, "hidden"), JudgeClient: rapid.Bool().Draw(t, "judgeClient")}
 		c.Ident = c01Ident{
-			Chain:    rapid.SampledFrom([]int{0, 0, 1, 2, 3, 4}).Draw(t, "chain"),
+			Chain:    rapid.SampledFrom([]int{0, 0, 1, 2, 3, 4, 5}).Draw(t, "chain"),
 			Time:     rapid.SampledFrom([]int{0, 0, 1, 2}).Draw(t, "time"),
 			TypeLeaf: rapid.SampledFrom([]bool{true, true, true, false}).Draw(t, "typeLeaf"),
 			Name:     rapid.SampledFrom([]int{0, 0, 1, 2}).Draw(t, "name"),
 			HoldsKey: rapid.SampledFrom([]bool{true, true, false}).Draw(t, "holdsKey"),
 			InSet:    rapid.Bool().Draw(t, "inSet"),
+			Removed:  rapid.Bool().Draw(t, "removed"),
 		}
 		c.Policy = c01Policy{
 			Store:    rapid.SampledFrom([]bool{true, true, false}).Draw(t, "store"),
